@@ -552,6 +552,10 @@ def bits_of(t, cons, width=32):
     vs = vs_of(t, cons)
     if vs.empty() or vs.lo < 0 or vs.hi >= INF:
         return None
+    if width < 32:
+        # intermediate results (before shifts / truncating casts) need more room than the result
+        full = bits_of(t, cons, 32)
+        return full[:width] if full is not None else None
     raw = _bits(t, cons, width)
     if raw is None:
         raw = [UNK] * width
